@@ -1,6 +1,8 @@
 """C16 — parallelogram coupling."""
 from props import _gencommon as G
 ID = "C16"
+# files this check also depends on (the quick tier runs at the thorough sizes when one of them differs from the fingerprinted tree)
+EXTRA_FILES = ['src/tool.rs']
 COQ_TARGETS = ["Gen/Delegation.vo", "Properties/C16.vo"]
 THEOREMS = ["C16_para_forward", "C16_para_links", "C16_para_entries", "C16_para_roundtrip", "C16_para_compose", "C16_para_under_tool_base"]
 LEVEL_TEXT = ("Coq theorems for every scaling, driven != coupled index pair, inner robot and joint vector about Parallelogram code "
